@@ -462,6 +462,11 @@ func tokenExported(name string) bool { return token.IsExported(name) }
 // R = CalculateArithmeticShift(1, zoom), the bounds compared against are
 // exactly R-1 (upper) and -R or 0 (lower).
 func ruleIndexInterval(w *World, r *Report, cl map[*ssa.Function]bool) {
+	ruleIndexIntervalOpt(w, r, cl, false)
+}
+
+// ruleIndexIntervalOpt: quiet = the closure need not contain a validator at all.
+func ruleIndexIntervalOpt(w *World, r *Report, cl map[*ssa.Function]bool, quiet bool) {
 	r.Rule("INTERVAL", "an index-existence test at zoom z accepts exactly [-2^z, 2^z - 1] (signed) or [0, 2^z - 1] (unsigned): with R = CalculateArithmeticShift(1, z) the upper bound compared is R - 1 and the lower bound is -R or 0; the failing side of each comparison leads to failure")
 	n := 0
 	for _, f := range sortedFuncSet(w, cl) {
@@ -474,6 +479,14 @@ func ruleIndexInterval(w *World, r *Report, cl map[*ssa.Function]bool) {
 			if ok && calleeIs(c, modPath+"/common", "CalculateArithmeticShift") {
 				if k, ok := constInt(c.Call.Args[0]); ok && k == 1 {
 					R = append(R, c)
+				}
+			}
+			// 1 << zoom
+			if sh, ok := in.(*ssa.BinOp); ok && sh.Op == token.SHL {
+				if k, ok := constInt(sh.X); ok && k == 1 {
+					if _, isK := constInt(sh.Y); !isK {
+						R = append(R, sh)
+					}
 				}
 			}
 		})
@@ -599,7 +612,7 @@ func ruleIndexInterval(w *World, r *Report, cl map[*ssa.Function]bool) {
 			r.Add(Obligation{Rule: "INTERVAL", Key: key, Pos: w.Pos(b.Pos()), Status: verdict, Detail: detail, Canary: w.IsCanary(f)})
 		})
 	}
-	if n == 0 {
+	if n == 0 && !quiet {
 		r.add("INTERVAL", "index validators", "-", Undecided, "no index-existence comparison recognised in the closure")
 	}
 }
